@@ -49,6 +49,8 @@ type joinRig struct {
 
 	// per join instance
 	mkJoin func() (joinInst, error)
+	// dstBase: index (into closeBases/basesDone) of the join's destination controller
+	dstBase int
 	// joinCtx, when set, is the context handed to the next join (instead of g.ctx)
 	joinCtx context.Context
 	// emptySrc deletes every source object
@@ -473,6 +475,7 @@ func newJoinRig(kind string, core *kit.Core, dstLatency time.Duration) (*joinRig
 			return out, nil
 		}
 		if kind == "ingress-service" {
+			g.dstBase = len(g.closeBases) - 1 // the services controller
 			g.mutDst = g.mutMid
 			g.mutMid = nil
 			g.mkJoin = func() (joinInst, error) {
@@ -748,6 +751,27 @@ func e10Case(kind string, seed uint64, n int) Case {
 				r.V("C09", "join-content-wrong", "fresh %s join after %d create/close cycles holds %v, expected %v", kind, cycles, got, want)
 			}
 			within(ji.close)
+		}
+		// a join that cannot be created (its destination controller is gone) must
+		// fail cleanly and leave the other controllers running
+		if !within(g.closeBases[g.dstBase]) {
+			r.V("C12", "close-hang", "destination base Close() hung")
+			return
+		}
+		core.Barrier()
+		if ji, err := g.mkJoin(); err == nil {
+			// (a join over a stopped destination may also be returned, already done)
+			if !waitCh(ji.done, virtBound) {
+				r.V("C09", "join-zombie", "join %s created over a stopped destination controller never becomes done", kind)
+			}
+		} else {
+			r.Add("failed-join-creations", 1)
+		}
+		core.Barrier()
+		for i, dn := range g.basesDone {
+			if i != g.dstBase && isClosed(dn) {
+				r.V("C09", "join-close-stops-base", "a failed attempt to create the %s join over a stopped destination shut down another base controller (#%d)", kind, i)
+			}
 		}
 		for _, c := range g.closeBases {
 			if !within(c) {
